@@ -716,6 +716,54 @@ def check_loop(ctx):
            'events are sampled from the propensity buffer whose sum is Lambda, over all propensities', '')
 
 
+def check_grid_steps(ctx):
+    """Every row was actually simulated: one pass of the lineage loop never carries the clock past a grid step that is still pending
+    (volume rules, division and death rules run once per grid step, also while reactions are rare).  The time-advance block of the loop
+    - from the total propensity to the recording loop - is evaluated (templates.StrExec) on a table of clock / next grid step / final
+    time / total propensity / sampled waiting time values, and the new clock is compared with what an event race allows."""
+    from ..templates import StrExec, UNKNOWN
+    sl = simloop.SimLoop(ctx, 'Lineage')
+    body = sl.loop.body
+    i_lam = [i for i, st in enumerate(body) if isinstance(st, ast.Assign) and src(st.targets[0]) == 'Lambda']
+    i_rec = [i for i, st in enumerate(body) if isinstance(st, ast.While)]
+    if len(i_lam) != 1 or not i_rec or i_rec[0] < i_lam[0]:
+        raise AnalysisError('SimulateSingleCell: time-advance block not found')
+    block = body[i_lam[0] + 1:i_rec[0]]
+    problems = []
+    n = 0
+    T, d = 10.0, 1.0
+    for c in (0.0, 3.5, 8.2, 9.3):
+        for q in (c + 0.25, c + 1.0):
+            for L in (0.0, 2.0):
+                for E in ((0.01, 0.4, 3.0, 50.0) if L > 0 else (None,)):
+                    def hook(nd, ex):
+                        if src(nd.func).split('.')[-1] == 'exponential_rv':
+                            return E
+                        return None
+                    env = {'current_time': c, 'next_queue_time': q, 'final_time': T, 'delta_t': d, 'Lambda': L, 'proposed_time': 0.0,
+                           'rule_step': 0, 'move_to_queued_time': 0}
+                    ex = StrExec(env, tracked=set(), call_hook=hook)
+                    ex.run(block)
+                    n += 1
+                    new, mv = ex.env.get('current_time'), ex.env.get('move_to_queued_time')
+                    tag = 'clock %s, next grid step %s, final time %s, Lambda %s%s' % (c, q, T, L, '' if E is None else ', waiting time %s' % E)
+                    if ex.aborted or not isinstance(new, float) or mv not in (0, 1):
+                        raise AnalysisError('SimulateSingleCell: time-advance block not evaluated for %s (%s, %r)' % (tag, ex.aborted, new))
+                    if new < c:
+                        problems.append('%s: the clock goes back to %s' % (tag, new))
+                    elif q < T - 1e-6 and new > q + 1e-9:
+                        problems.append('%s: the clock jumps to %s, past the pending grid step' % (tag, new))
+                    elif new > T + 1e-9:
+                        problems.append('%s: the clock passes the final time (%s)' % (tag, new))
+                    elif mv == 0 and (L == 0 or abs(new - (c + E)) > 1e-9):
+                        problems.append('%s: an event is to be fired at %s, not at the sampled event time' % (tag, new))
+                    elif mv == 1 and L > 0 and c + E < min(q, T) - 1e-6:
+                        problems.append('%s: the sampled event at %s is dropped' % (tag, c + E))
+    ctx.ob('R19.4-grid-steps', 'SimulateSingleCell', not problems, sl.where,
+           'one pass of the loop moves the clock to the sampled event, or to the next pending grid step / the final time - never past a grid '
+           'step on which the volume, division and death rules have not run (%d value combinations evaluated)' % n, '; '.join(problems[:2]))
+
+
 def check_parallel_queues(ctx):
     """old_cell_states and old_schnitzes are walked as parallel lists by SimulateCellLineage (cell state i belongs to schnitz i):
     wherever schnitzes are created, both lists must grow by the same cells in the same order on every path."""
@@ -955,6 +1003,7 @@ def check(ctx):
     check_daughters(ctx, fl)
     check_splitter_choice(ctx)
     check_loop(ctx)
+    check_grid_steps(ctx)
     check_own_state(ctx)
     check_parallel_queues(ctx)
     ctx.floor('R19.3-queues-parallel', 3)
